@@ -545,8 +545,11 @@ class UnionProvider(LoaderProvider, DumperProvider):
         literal_dumper: Dumper,
         literal_cases: Sequence[Any],
     ) -> Dumper:
+        # Decimal(1) == 1.0 == 1 == True, so the type is compared too
+        typed_literal_cases = [(type(case), case) for case in literal_cases]
+
         def union_dumper_with_literal(data):
-            if data in literal_cases:
+            if (type(data), data) in typed_literal_cases:
                 return literal_dumper(data)
             return dumper_type_dispatcher.dispatch(type(data))(data)
 
